@@ -89,4 +89,6 @@ def run(facts, tier):
         raise BrokenCheck("R06-2: %d alts on recursive productions, floor 10" % res.rules["R06-2"]["instances"])
     r06_3(facts, res)
     c03.r03_3(facts, res, "R06-4", reach, reasons_e1.scc_reasons(facts, reach))
+    import guards
+    guards.rule(facts, res, "R06-4g", [facts.fns[x] for x in reach if x in facts.fns], want=("G1", "G2"), floor=1)
     return res
